@@ -16,6 +16,75 @@ class Roles:
     pass
 
 
+def _empty_literal(v):
+    if v is None:
+        return True
+    if isinstance(v, ast.Dict) and not v.keys:
+        return True
+    return isinstance(v, ast.Call) and not v.args and not v.keywords
+
+
+def check_record_wins(ctx, rule):
+    """The record of file-provided rules follows the same precedence as the
+    effective rule set: an entry from the file being recorded replaces one
+    recorded earlier under the same name."""
+    prog = ctx.prog
+    r = roles(ctx)
+    rec = r.recorder
+    t = Table(prog, rec, comps=True)
+    S = 'self.file_rules'
+    F = ctx.where(rec.module, rec.node).split(':')[0]
+    seen = {}
+
+    def old_wins(v):
+        v = t.expand(v)
+        if isinstance(v, ast.Dict):
+            # {**new, **old}: later entries win
+            idx = [i for i, (k, x) in enumerate(zip(v.keys, v.values))
+                   if k is None and U(x) == S]
+            return bool(idx) and idx[-1] > 0
+        if isinstance(v, ast.BinOp) and isinstance(v.op, ast.BitOr):
+            return U(v.right) == S
+        if isinstance(v, ast.Call) and isinstance(v.func, ast.Name) and \
+                v.func.id == 'dict':
+            return any(k.arg is None and U(k.value) == S
+                       for k in v.keywords)
+        if isinstance(v, ast.Call) and U(v.func).endswith('ChainMap') \
+                and v.args:
+            return U(v.args[0]) == S and len(v.args) > 1
+        return False
+    for p in t.paths:
+        for e in p.events:
+            verdict = None
+            if e.kind == 'store' and U(e.node) == S:
+                verdict = ('rebind %s' % U(t.expand(e.value))[:70],
+                           not old_wins(e.value))
+            elif e.kind == 'store' and isinstance(e.node, ast.Subscript) \
+                    and U(e.node.value) == S:
+                verdict = ('entry store', True)
+            elif e.kind in ('call', 'maycall'):
+                mc = method_call(e.node)
+                if mc and U(t.expand(mc[0])) == S and mc[1] in (
+                        'update', 'setdefault'):
+                    verdict = (mc[1], mc[1] == 'update')
+            if verdict is None:
+                continue
+            key = (e.line, verdict[0])
+            if key in seen:
+                continue
+            seen[key] = verdict[1]
+            ctx.ob(rule, verdict[1], '%s:%d' % (F, e.line), e.frame or
+                   rec.qual, 'file-rule record: %s' % verdict[0],
+                   'the file being recorded wins over earlier records'
+                   if verdict[1] else
+                   'an entry recorded from an earlier file wins over the one '
+                   'from the file being loaded, while the effective rule set '
+                   'is last-file-wins: the record consulted for the '
+                   'deprecated-name override no longer names the operator\'s '
+                   'effective override')
+    ctx.floor(rule, len(seen), 1, 'writes of the file-rule record')
+
+
 def roles(ctx):
     cache = ctx.__dict__.setdefault('_cache', {})
     if 'load_roles' in cache:
@@ -39,6 +108,15 @@ def roles(ctx):
     if r.loader is None:
         raise AnalysisError('policy-file loader (caller of read_cached_file) '
                             'not found')
+    if r.recorder is None:
+        # a recorder that builds the record aside and rebinds the attribute
+        for m in enf.methods.values():
+            if m.name in ('__init__', 'clear'):
+                continue
+            for e in effects_of(m):
+                if e.kind == 'store' and e.path == 'self.file_rules' and \
+                        not _empty_literal(getattr(e.node, 'value', None)):
+                    r.recorder = m
     if r.recorder is None:
         raise AnalysisError('file-rule recorder not found')
     lr = r.load_rules
@@ -89,6 +167,18 @@ def roles(ctx):
     cands = [m for m in enf.methods.values() if m is not lr and any(
         isinstance(x, ast.Attribute) and x.attr == 'enforce_new_defaults'
         for x in ast.walk(m.node))]
+    # ... or reaches such a method and is handed the default to decide on
+    direct = list(cands)
+    for m in enf.methods.values():
+        if m is lr or m in cands or len(m.params) < 2 or m.name in (
+                '__init__', 'enforce', 'authorize', '__call__'):
+            continue
+        reg = prog.region(m, stop=(lr.qual,))
+        if lr.qual in reg or ENF + '.enforce' in reg or \
+                r.loader.qual in reg or r.recorder.qual in reg:
+            continue            # a load body, not a per-default decision
+        if any(d.qual in reg for d in direct):
+            cands.append(m)
     if len(cands) > 1:
         inner = set()
         for m in cands:
@@ -182,3 +272,123 @@ def classify_event(t, e):
         if isinstance(n, ast.Attribute) and U(n) == 'self.file_rules':
             return 'RESET-FILE'
     return None
+
+
+def _self_attrs(expr):
+    return {'self.' + n.attr for n in ast.walk(expr)
+            if isinstance(n, ast.Attribute) and isinstance(n.value, ast.Name)
+            and n.value.id == 'self'}
+
+
+def check_merge_memo(ctx, rule):
+    """What a load stores for a registered default is computed from the
+    default, the file-rule record and the configuration of *this* load: no
+    decision in the default merge, or in the deprecated-rule handler, reads
+    enforcer state that the merge itself writes (a memo, a once-only flag).
+    Such state outlives the load, so a second load - or a load after the
+    files changed - would store something else than a first one."""
+    from .dte import inline_helpers
+    prog = ctx.prog
+    t = load_table(ctx)
+    r = t.roles
+    lr = r.load_rules
+    F = ctx.where(lr.module, lr.node).split(':')[0]
+    ALLOWED = {'self.rules'}
+    bad = None
+    n = 0
+
+    def written_by(ev_list, tab):
+        w = set()
+        for e in ev_list:
+            if e.kind in ('store', 'aug', 'del'):
+                w |= _self_attrs(tab.expand(e.node))
+            elif e.kind in ('call', 'maycall'):
+                mc = method_call(e.node)
+                from .effects import MUTATORS
+                if mc and mc[1] in MUTATORS:
+                    w |= _self_attrs(tab.expand(mc[0]))
+        return w
+    # (1) the merge loop of load_rules
+    seg_writes = set()
+    segs = []
+    for p in t.paths:
+        start = None
+        for e in p.events:
+            if e.kind == 'iter' and 'self.registered_rules' in U(
+                    t.expand(e.node)):
+                start = e
+                break
+        if start is None:
+            continue
+        i0 = p.events.index(start)
+        end = len(p.conds)
+        evs = []
+        lc = p.conds[start.nconds] if start.nconds < len(p.conds) else None
+        if lc is not None and lc.kind == 'loop' and not lc.pol:
+            continue            # no default to merge on this path
+        for e in p.events[i0 + 1:]:
+            if e.kind == 'loopdone' and e.line == start.line and U(
+                    e.node) == U(start.node):
+                end = e.nconds
+                break
+            evs.append(e)
+        seg_writes |= written_by(evs, t) - ALLOWED
+        outcome = tuple(U(t.expand(e.value)) for e in evs
+                        if classify_event(t, e) == 'MERGE')
+        segs.append((p.conds[start.nconds:end], outcome))
+
+    def decide(sigs, memo, tab, qual):
+        """memo conditions that change the outcome: two paths that agree on
+        every other condition, differ on a memo condition, and store /
+        return something different."""
+        nonlocal n
+        uniq = {}
+        for conds, outcome in sigs:
+            cs = [(U(tab.expand(c.expr)), c.pol, c.line,
+                   bool(_self_attrs(tab.expand(c.expr)) & memo))
+                  for c in conds if c.kind == 'test']
+            uniq.setdefault((tuple((x[0], x[1], x[3]) for x in cs),
+                             outcome), cs)
+        n += sum(len(cs) for cs in uniq.values())
+        items = list(uniq.items())
+        for a in range(len(items)):
+            (ka, oa), ca = items[a]
+            for b in range(a + 1, len(items)):
+                (kb, ob), cb = items[b]
+                if oa == ob:
+                    continue
+                pa = {x[0]: x for x in ca}
+                clash = [x for x in cb if x[0] in pa and
+                         pa[x[0]][1] != x[1]]
+                if clash and all(x[3] for x in clash):
+                    x = clash[0]
+                    hit = sorted(_self_attrs(ast.parse(
+                        x[0], mode='eval').body) & memo)
+                    return (x[2], qual, hit[0] if hit else '?', x[0][:80])
+        return None
+    bad = decide(segs, seg_writes, t, lr.qual)
+    # (2) the deprecated-rule handler
+    h = r.deprecated
+    if h is not None:
+        th = Table(prog, h, inline=inline_helpers(prog, modules={POLICY},
+                                                  classes=False),
+                   max_depth=3, max_paths=100000)
+        hw = set()
+        for p in th.paths:
+            hw |= written_by(p.events, th)
+        sigs = []
+        for p in th.paths:
+            o = p.outcome
+            sigs.append((p.conds, (o.kind, U(th.expand(o.expr))
+                                   if o.expr is not None else None)))
+        bad = bad or decide(sigs, hw, th, h.qual)
+    ctx.ob(rule, bad is None, '%s:%d' % (F, bad[0]) if bad else
+           ctx.where(lr.module, lr.node), bad[1] if bad else lr.qual,
+           'default merge decisions (%d conditions)' % n,
+           'no merge decision reads state the merge writes' if bad is None
+           else 'the default merge decides on %s (`%s`), which the merge '
+           'itself writes and which outlives the load: a later load - after '
+           'the policy files changed, or simply a second one - stores '
+           'something else for the same default than a first load would'
+           % (bad[2], bad[3]))
+    ctx.floor(rule, n, 3, 'merge conditions')
